@@ -30,7 +30,8 @@ FLAGSETS = [(), ('F',), ('Q',), ('z',), ('k',), ('F', 'z'), ('F', 'k'),
 
 def make_spec(cfg):
     return dict(flagsets=cfg.get('flagsets') or FLAGSETS[:6],
-                inflight=cfg.get('inflight', True))
+                inflight=cfg.get('inflight', True),
+                packinside=cfg.get('packinside', False))
 
 
 def repozo():
@@ -100,6 +101,11 @@ class RepoWorld:
             # the backup runs
             ops.append(('backup-ticking',))
             ops.append(('backup-ticking', 'F'))
+        if spec.get('packinside') and self.w.model.txns:
+            # a pack completes while the backup runs, after repozo has
+            # looked at the data file and before it copies from it
+            ops.append(('backup-pack-inside',))
+            ops.append(('backup-pack-inside', 'F'))
         if self.backups:
             # another backup within the same second as the last step
             ops.append(('backup-same-second',))
@@ -137,7 +143,7 @@ class RepoWorld:
         if k == 'pack':
             return w.apply(('pack',), self.spec)
         if k in ('backup', 'backup-inflight', 'backup-ticking',
-                 'backup-same-second'):
+                 'backup-same-second', 'backup-pack-inside'):
             flags = op[1:]
             if k != 'backup-same-second':
                 w.tick()
@@ -156,10 +162,35 @@ class RepoWorld:
                 ['-' + f for f in flags]
             if k == 'backup-ticking':
                 env.CLOCK.auto = 1.0
+            rz = repozo()
+            orig_copyfile = rz.copyfile
+            if k == 'backup-pack-inside':
+                def copyfile(*a, **kw):
+                    rz.copyfile = orig_copyfile
+                    w.apply(('pack',), self.spec)
+                    return orig_copyfile(*a, **kw)
+                rz.copyfile = copyfile
             try:
                 r = run_main(argv)
             finally:
                 env.CLOCK.auto = 0.0
+                rz.copyfile = orig_copyfile
+            if k == 'backup-pack-inside':
+                made = sorted(set(os.listdir(self.repo)) - before)
+                data_made = [f for f in made if rz.is_data_file(f)]
+                if r is not None:
+                    # the run may fail, if it leaves no backup file behind
+                    if data_made:
+                        self.bad('backup', 'failed-run-left-data-file',
+                                 dict(argv=argv, made=data_made,
+                                      result=r[:120]))
+                    for f in made:
+                        # temporary leftovers are not part of the repository
+                        if not rz.is_data_file(f):
+                            os.unlink(os.path.join(self.repo, f))
+                    return 'backup-failed-cleanly'
+                # it went through: it is a backup of what repozo saw when
+                # it opened the data file
             if t is not None:
                 w.storage.tpc_abort(t)
             made = sorted(set(os.listdir(self.repo)) - before)
@@ -435,12 +466,17 @@ def run(rep, tier, seed, workers):
     cfg2 = dict(prop='C18', flagsets=[[], ['Q']], inflight=False,
                 start=EMPTY_INC)
     fps2 = seqx.explore(rep, MOD, cfg2, depth - 1, workers, seed, split=1)
+    # a pack that completes in the middle of a backup run
+    cfg4 = dict(prop='C18', flagsets=[[], ['F']], inflight=False,
+                packinside=True)
+    fps4 = seqx.explore(rep, MOD, cfg4, depth - 1, workers, seed, split=1)
+    rep.bounds['depth with a pack inside a backup run'] = depth - 1
     # a repository path with a blank in it
     cfg3 = dict(prop='C18', flagsets=[[], ['Q'], ['z']], inflight=False,
                 reponame='my repo')
     fps3 = seqx.explore(rep, MOD, cfg3, depth - 1, workers, seed, split=1)
     rep.bounds['depth with a blank in the repository path'] = depth - 1
-    rep.cov['states'] = max(len(fps) + len(fps2) + len(fps3), 1)
+    rep.cov['states'] = max(len(fps) + len(fps2) + len(fps3) + len(fps4), 1)
     rep.bounds['history depth'] = depth
     rep.bounds['depth after commit, commit, full backup, quick backup with '
                'a transaction in progress'] = depth - 1
